@@ -200,3 +200,69 @@ def corpus():
     for k, q in enumerate(QUERIES):
         add("query%d" % k, "T_PROPERTY", {"entry": "property"}, "property", q)
     return out
+
+
+def semantic_jobs():
+    """the diagnostic zoo as model_run jobs: every declaration snippet alone after SEM_DECL (parse_XTA(S_DECLARATION) and inside a whole model, so that the type checker runs),
+    the models, and the queries over a scaffold"""
+    out = []
+    for k, d in enumerate(SEM_DECLS):
+        out.append({"zoo": "semdecl%d" % k, "entry": "xta", "text": SEM_DECL + d + "\nprocess P() { state A; init A; } system P;"})
+        out.append({"zoo": "semdeclpart%d" % k, "entry": "part", "part": "S_DECLARATION", "text": SEM_DECL + d})
+        out.append({"zoo": "semlocal%d" % k, "entry": "xta", "text": SEM_DECL + "process P() { " + d + " state A; init A; } system P;"})
+    for k, x in enumerate(SEM_XTA):
+        out.append({"zoo": "semxta%d" % k, "entry": "xta", "text": SEM_DECL + x})
+    for k, x in enumerate(SEM_INVS):
+        for flag in ("", "commit A; ", "urgent A; "):
+            out.append({"zoo": "seminv%d%s" % (k, flag[:1]), "entry": "xta", "text": SEM_DECL + "process P() { state A { %s }, B; %sinit A; trans A -> B { }; } system P;" % (x, flag)})
+    for k, x in enumerate(SEM_EDGES):
+        out.append({"zoo": "semedge%d" % k, "entry": "xta", "text": SEM_DECL + "process P() { state A, B; init A; trans A -> B { %s }; } system P;" % x})
+        out.append({"zoo": "semedgebp%d" % k, "entry": "xta", "text": SEM_DECL + "process P() { state A, B; branchpoint Bp; init A; trans A -> Bp { }, Bp -> B { %s }; } system P;" % x})
+        out.append({"zoo": "semedgeu%d" % k, "entry": "xta", "text": SEM_DECL + "process P() { state A, B; init A; trans A -u-> B { %s }; } process R() { state A; init A; trans A -> A { sync c?; }, A -> A { sync uc?; }, A -> A { sync bc!; }, A -> A { sync bc?; }; } system P, R;" % x})
+    scaffold = SEM_DECL + "process P() { state A, B; init A; trans A -> B { guard i > 0; }; } system P;"
+    out.append({"zoo": "semqueries_tiga", "entry": "xta", "text": scaffold, "queries": list(SEM_QUERIES), "query_builder": "tiga", "clear_errors": True})
+    out.append({"zoo": "semqueries_one", "entry": "xta", "text": scaffold, "queries": list(SEM_QUERIES), "query_builder": "tiga", "one_builder": True, "clear_errors": True})
+    out.append({"zoo": "semqueries_plain", "entry": "xta", "text": scaffold, "queries": list(SEM_QUERIES), "query_builder": "property", "clear_errors": True})
+    return out
+
+
+# ---- the diagnostic zoo: small texts that make the builders, the type checker and the query builder report (or throw) - the error
+# paths behind every `$...` message of the sources are code too (C01: a diagnostic, not a crash). Coverage is measured against the
+# messages written in the sources (vf.source_messages); what no text reaches is listed in C01's evidence.
+SEM_DECL = "typedef struct { int a; int b; } S; int i; int j; bool bb; double d; clock x; clock y; chan c; broadcast chan bc; urgent chan uc; const int N = 2; int arr[3]; S s; typedef scalar[3] sc_t; sc_t sv; void noret() { } int f1(int q) { return q; }\n"
+SEM_DECLS = [
+    "int q1 = forall (b : bool) b;", "bool q2 = exists (dd : double) dd > 0.0;", "int q3 = sum (cl : clock) 1;", "bool q4 = forall (st : S) st.a > 0;", "bool q5 = forall (k : int) k > 0;",
+    "int[d, 3] r1;", "int[0, x] r2;", "int ar1[bb];", "int ar2[d];", "int ar3[-1];", "int ar4[S];", "int ar5[i];", "scalar[i] s1;", "scalar[d] s2; ", "scalar[0] s3;",
+    "const clock cx;", "meta clock mx;", "const chan cc1;", "meta chan mc1;", "urgent int ui;", "broadcast int bi;", "hybrid int hi;", "committed int ci;", "urgent clock ux;", "broadcast clock bx;", "const int nc;",
+    "struct { clock k1; } sk;", "struct { chan k2; } sch;", "struct { const int k3; } sco;", "struct { int a; int a; } sdup;", "S s2 = { 1 };", "S s3 = { 1, 2, 3 };", "S s4 = { a: 1, a: 2 };", "S s5 = { zz: 1, b: 2 };",
+    "int ai[2] = { a: 1, 2 };", "int ai2[2] = { 1, 2, 3 };", "int ai3[2] = 5;", "int iv = { 1, 2 };", "clock cxi = 1;", "chan chi = 1;", "int ii = bb ? s : 1;", "int i2 = s ? 1 : 2;", "int i3 = x;", "bool b3 = s;",
+    "int i4 = i++;", "int i5 = (i = 2);", "int i6 = arr[i++];", "int i7 = f1(i++);", "int i8 = noret();", "int i9 = f1();", "int i10 = f1(1, 2);", "int i11 = f1(s);", "int i12 = i(1);", "int i13 = s.zz;", "int i14 = i.a;", "int i15 = arr.a;",
+    "int i16 = arr[s];", "int i17 = i[0];", "int i18 = c;", "int i19 = -s;", "int i20 = !s;", "int i21 = s + 1;", "int i22 = s < s;", "int i23 = x + 1;", "bool b4 = x - y < 3 || x > 1;", "int i24 = 1 = 2;", "int i25 = (1, 2);",
+    "void v1() { return 1; }", "int v2() { return; }", "int v3() { }", "int v4() { i; return 1; }", "int v5() { return v5(); }", "void v6(clock &k) { }", "void v7(chan k) { }", "clock v8() { return x; }", "S v9() { return s; }",
+    "void v10() { clock lk; }", "void v11() { chan lc; }", "void v12() { d++; }", "void v13() { s++; }", "void v14() { d += 1; d %= 2; }", "void v15() { bb &= 1; x += 1; }", "void v16() { N = 3; }", "void v17() { 5 = i; }", "void v18() { s = 1; }", "void v19() { arr = 1; }",
+    "void v20() { assert(i++); }", "void v21() { if (s) i = 1; }", "void v22() { while (x) i = 1; }", "void v23() { for (k : S) i = 1; }", "void v24() { for (k : int) i = 1; }", "void v25() { for (i = 0; s; i++) i = 1; }", "void v26(int &r, const int &cr) { v26(1, 2); v26(N, i); }",
+    "typedef int[0,1] tt; typedef int tt;", "int i; int i;", "void dupf() { } void dupf() { }", "int dupv; void dupv() { }", "typedef nosuch_t q9;", "nosuch_t q10;", "int q11 = nosuch;", "string str1 = \"abc\"; const string str2 = \"abc\";",
+    "progress { s; } progress { x: i; }", "before_update { i++ } after_update { s }", "chan priority c < nosuch; chan priority i < c;", "double dd1 = 1.5 % 2;", "int sh = 1 << d;", "int mn = s <? 1;", "bool im = s imply 1;", "int cm = (s, 1);",
+]
+SEM_XTA = [
+    "process E1() { state A; init A; } process E2() { state A; init A; } process E3() { int q; state A; init A; } const int K = 1; Q = E1(); system Q, E2, E3;",
+    "process P() { state A { i++ > 0 }, B { x >= 3 }, C { x < 3 || x > 5 }, D { s }, E { x' == 2 && y' == 3 }; commit A; urgent A; init A; trans A -> B { guard i++ > 0; }, A -> B { guard s; }, A -> B { sync c!; guard x > 1; }, A -> B { sync uc!; guard x > 1; }, A -> B { sync bc?; guard x > 1; }, A -> B { sync i!; }, A -> B { sync c[0]!; }, A -> B { assign 5; }, A -> B { assign i == 1; }, A -> B { select k : S; }, A -> B { select k : int; }, A -> B { select k : clock; }, A -> B { probability s; }, A -> B { probability i++; }, A -> Z { }, Z -> A { }; } system P;",
+    "process P() { state A; branchpoint Bp; init Bp; trans A -> Bp { }, Bp -> A { guard i > 0; }, Bp -> A { sync c!; }; } system P;",
+    "process P() { state A; init A; init A; state A; } process P() { state A; init A; } system P, P;",
+    "process P(int &r, const int v, clock &k, chan &ch, S st, int[0,1] b1, scalar[2] b2, double b3) { state A; init A; } Q1 = P(1, 1, x, c, s, 0, 0, 0.5); Q2 = P(i); Q3 = P(i, i, i, i, i, i, i, i); Q4 = P(i, j, y, c, s, 2, 0, 1.0, 7); Q5 = Nosuch(1); Q6 = i(1); system P, Q1, Q5, nosuch, i;",
+    "process P() { state A; init A; trans A -> A { sync c!; }, A -> A { sync c; }; } process R() { state A; init A; trans A -> A { sync c?; }; } system P < R, P;",
+    "process P() { state A; } system P;", "process P() { state A; init B; } system P;", "system ;", "process P() { state A; init A; } system P; system P;",
+    "process P() { state A; init A; } IO P { c!, c?, nosuch! } system P;", "process P() { state A; init A; } system P; gantt { G(k : S) : s -> 1, i > 0 -> s; G2 : for (k : clock) true -> 1; }",
+    "dynamic D(int a); dynamic D(int a); process D() { state A; init A; } process P() { state A; init A; trans A -> A { assign spawn D(1), spawn P(), spawn Nosuch(1), exit(), i = numOf(D) + numOf(i); }; } system P;",
+]
+SEM_QUERIES = ["A[] i++ > 0", "A[] s", "E<> (A[] i > 0)", "A[] x", "sup: s", "inf: c", "bounds: s, x", "Pr[<=10](<> s)", "Pr[s<=10](<> i > 0)", "Pr[<=s](<> i > 0)", "E[<=10; 5](min: s)", "E[<=10; 5](avg: i)", "simulate[<=10]{s}", "simulate[<=10; s]{i}",
+               "control: A[] s", "control: E<> i > 0", "control_t*(s, 1): A<> i > 0", "E<> control: E<> i > 0", "control: A[ s U i > 0 ]", "minE(s)[<=10] : <> i > 0", "minE(i)[<=10] {s} -> {x} : <> i > 0", "A[] i > 0 under Nosuch", "minE(i)[<=10] : <> i > 0 imitate Nosuch",
+               "saveStrategy(i, Nosuch)", "saveStrategy(\"f\", Nosuch)", "strategy Q = loadStrategy {i} -> {s} (i)", "A<> deadlock", "A[] deadlock imply i > 0", "E<> i > 0 && deadlock", "sat: Nosuch", "sat: i", "Pr(<>[0,s] i > 0)", "Pr(X s)", "A[] forall (k : S) true",
+               "A[] P.nosuch", "A[] Nosuch.A", "A[] i.A", "A[] P.A.B", "A[] f1(i++) > 0", "A[] noret()", "E<> arr[5] > 0", "E<> arr[s] > 0", "Pr[<=10](<> i > 0) >= s", "Pr[<=10](<> i > 0) >= Pr[<=10](<> s)"]
+# one faulted location invariant / edge label per model: the type checker runs only on a document without parse errors
+SEM_INVS = ["i++ > 0", "x >= 3", "x < 3 || x > 5", "s", "x' == 2 && y' == 3", "x' == 2 && x' == 3", "x <= 5 && x - y < 3", "x + 1 < 3", "x < d", "forall (k : int[0,1]) x < 3", "exists (k : int[0,1]) x < 3", "x == 3", "!(x < 3)", "arr[i++] > 0", "f1(i++) > 0", "d < 1.5", "x' == i", "x' == d"]
+SEM_EDGES = ["guard i++ > 0;", "guard s;", "guard x;", "guard x - y < i;", "guard x + y < 3;", "guard x - y - x < 3;", "guard x < 3 || y > 2;", "guard !(x < 3);", "guard (x < 3) == (y > 2);", "guard x < 3 imply y > 2;", "guard x != 3;",
+             "sync c!; guard x > 1;", "sync uc!; guard x > 1;", "sync uc!; guard x >= 1 && i > 0;", "sync bc?; guard x > 1;", "sync bc!; guard x > 1;", "sync i!;", "sync c[0]!;", "sync s!;", "sync c;", "sync arr[0]?;", "sync c[i++]!;",
+             "assign 5;", "assign i == 1;", "assign x = d;", "assign x = 2.5;", "assign d = x;", "assign i = x;", "assign c = 1;", "assign s = 1, i = s;", "assign x++;", "assign x += 1;", "assign N = 1;", "assign (bb ? i : j) = 1;", "assign i = (x > 1 ? 1 : 0);",
+             "select k : S;", "select k : int;", "select k : clock;", "select k : int[0,1], k : int[0,2];", "select k : int[0,i];", "select k : sc_t; guard k == sv;", "probability s;", "probability i++;", "probability 2;", "probability d;", "probability x;", "guard i > 0; probability 1;"]
+SEM_LSC = []
